@@ -51,7 +51,7 @@ package path
 //@   allocates none
 //@   ensures-trusted view(res0) == kvseq(dom(m), vals(m))
 //@   note that sort.Strings orders the collected keys (and hence the result is kvseq) is assumed; what is proved: the keys are collected from m, sort.Strings is what orders them, one value per key is emitted
-//@   invariant 0: fresh(ks) && len(ks) == len($visited) && len(ks) <= len(m)
+//@   invariant 0: fresh(ks) && len(ks) == len($visited)
 //@   invariant 1: fresh(vs) && fresh(ks) && len(vs) == $i && 0 <= $i && $i <= len(ks) && arr(vs) != arr(ks)
 //@   assert at call sort.Strings#0: [keys-ordered-by-plain-string-order C19] arg0 == ks
 //@   ensures [one-value-per-key C19] fresh(res0)
